@@ -37,6 +37,7 @@ func rulesC13(c *Ctx) {
 	ruleResetForgets(c)                        // Reset forgets what was queued for the old stream, the request channel's buffer included (shared with C14): a stale request would be sent unaccounted
 	ruleErrorSinks(c)                          // the recorded errors AwaitConverged returns are complete (shared with C14)
 	ruleStatusSnapshot(c)                      // an operation is never absent from a Status() snapshot
+	ruleShadowedVerdict(c, []string{"client"}) // the error a handler goes on to test is the one its call assigned
 	ruleErrorsRecorded(c)                      // a response the client rejects (unknown id, duplicate terminal result) is recorded as a receive error and ends the receive loop (shared with C14)
 	ruleStateWriters(c, writersClient)
 }
